@@ -36,10 +36,13 @@ def plan(tier, seed):
     return [dict(seed=seed, shard=i, n=6) for i in range(16)]
 
 
-def worker_program(rnd, forever=True):
+def worker_program(rnd, forever=True, adoptees=None):
     body = []
     for _ in range(rnd.randint(2, 6)):
-        body.append(rnd.choice([["crit", rnd.choice([300, 3000, 20000])], ["ctx"]]))
+        if adoptees and rnd.random() < 0.3:
+            body.append(["crit_adopt", adoptees.pop(), rnd.choice([300, 3000])])  # adopts in the middle of a section
+        else:
+            body.append(rnd.choice([["crit", rnd.choice([300, 3000, 20000])], ["ctx"]]))
         body.append(["sleep", rnd.choice([0, 0, 0.002, 0.01])])
     return body + ([["beat", 0.02, None]] if forever else [])
 
@@ -63,7 +66,13 @@ def gen_case(rnd, spec):
                 how = "outside"
             if how == "exec_cross" and direction.split("_to_")[1] != fl:
                 how = "exec_outside"
-            p = {"id": new(), "flavour": fl, "program": worker_program(rnd), "cleanup": {"kind": "none"}}
+            kids = []
+            if how in ("queued", "outside", "carried") and rnd.random() < 0.5:
+                for _ in range(rnd.randint(1, 2)):
+                    kid = {"id": new("kid"), "flavour": fl, "program": [["crit", 300], ["ctx"], ["sleep", 0.01], ["crit", 300]], "cleanup": {"kind": "none"}}
+                    gen["payloads"].append(kid)
+                    kids.append(kid["id"])
+            p = {"id": new(), "flavour": fl, "program": worker_program(rnd, adoptees=kids), "cleanup": {"kind": "none"}}
             if how == "queued":
                 p["when"] = "queued"
                 gen["payloads"].append(p)
@@ -118,6 +127,18 @@ def gen_case(rnd, spec):
             script.append(["adopt", blk["id"]])
         else:
             gen["services"].append({"id": blk["id"], "flavour": "threading", "program": blk["program"], "create": "before"})
+    # a thread that blocks *inside execute* while coroutine payloads keep adopting and executing
+    if rnd.random() < 0.5:
+        gen["payloads"].append({"id": new("xblock"), "flavour": "threading", "executed": True, "program": [["block", 0.6], ["return", "none"]], "cleanup": {"kind": "none"}})
+        xb = gen["payloads"][-1]["id"]
+        gen["payloads"].append({"id": new("blkcaller"), "flavour": "threading", "when": "queued", "program": [["sleep", 0.05], ["execute", xb]], "cleanup": {"kind": "none"}})
+        for fl in common.COROUTINE:
+            ops = []
+            for j in range(8):
+                small = {"id": new("tick"), "flavour": rnd.choice([fl, "threading"]), "program": [["sleep", 0.005]], "cleanup": {"kind": "none"}}
+                gen["payloads"].append(small)
+                ops += [["adopt", small["id"]], ["sleep", 0.06]]
+            gen["payloads"].append({"id": new("chatty"), "flavour": fl, "when": "queued", "program": ops + [["beat", 0.02, None]], "cleanup": {"kind": "none"}})
     script.append(["sleep", 0.9])
     script.append(["quiesce"])
     gen["script"] = script
@@ -130,6 +151,12 @@ def judge(case, run, result):
         result.inconc(trouble)
         return []
     if common.watchdog_fired(run):
+        blocked = run.of("block-start", gen=0)
+        beats = run.of("beat", gen=0)
+        if blocked and beats and not run.first("quiescent", gen=0):
+            # the scenario never got past its blocking phase: the loops stalled behind a thread payload
+            return [("the runtime stalled while thread payload %s was blocking (last heartbeat %.2f s into the scenario): %s"
+                     % (blocked[-1]["pid"], beats[-1]["t"], run.stacks[-1500:]), None)]
         result.inconc("watchdog fired: %s" % run.stacks[-1500:])
         return []
     gen = case["generations"][0]
@@ -161,6 +188,9 @@ def judge(case, run, result):
             if e["th"] != home["th"] or e.get(key) != home[key] or e.get("lib") != fl:
                 problems.append(("%s %s payload %s ran on a different thread / %s than the other %s payloads (lib=%s, same thread=%s, same %s=%s)"
                                  % (role, fl, e["pid"], "event loop" if fl == "asyncio" else "trio run", fl, e.get("lib"), e["th"] == home["th"], key, e.get(key) == home[key]), None))
+            if e.get("inside_section"):
+                problems.append(("%s payload %s took a step while %d other %s payload(s) were inside a synchronous section"
+                                 % (fl, e["pid"], e["inside_section"], fl), None))
             if e["kind"] == "crit":
                 result.count("synchronous_sections_checked")
                 if e["entered_with"] != 0:
@@ -190,6 +220,9 @@ def judge(case, run, result):
     if run.of("raised", gen=0, op="adopt"):
         e = run.of("raised", gen=0, op="adopt")[0]
         problems.append(("adopt of %s by %s raised %s(%s)" % (e["pid"], e["by"], e["exc"], e["msg"]), None))
+    result.count("sections_that_adopt_checked", sum(1 for p in gen["payloads"] for op in p.get("program", []) if op[0] == "crit_adopt"))
+    if any(p["id"].startswith("xblock") for p in gen["payloads"]) and run.of("block-start", gen=0):
+        result.count("blocking_executes_observed")
     if any(p["id"].startswith("foreign") for p in gen["payloads"]):
         result.count("scenarios_with_foreign_loop_submitter")
     result.count("distinct_payloads_asyncio", len(payload_counts["asyncio"]))
@@ -220,7 +253,7 @@ def run_shard(spec):
 
 def finish(total, tier):
     need = ["synchronous_sections_checked", "blocking_thread_payloads_observed", "heartbeats_during_blocking", "scenarios_with_foreign_loop_submitter",
-            "steps_adopted_threading"]
+            "steps_adopted_threading", "sections_that_adopt_checked", "blocking_executes_observed"]
     need += ["steps_%s_%s" % (r, f) for r in ("adopted", "service", "executed") for f in common.COROUTINE]
     for name in need:
         if not total.counters.get(name) and not total.violations:
